@@ -38,7 +38,9 @@ partial def fullRefs (j : Json) : List GName :=
         (match v with
          | .obj mm => mm.toList.filterMap fun (_, t) =>
              (match t with
-              | .str r => if r.startsWith refPrefix then some (r.drop refPrefix.length).toString.toList else none
+              -- OpenAPI allows both spellings of a mapping target: a pointer or the bare name of a component schema
+              | .str r => if r.startsWith refPrefix then some (r.drop refPrefix.length).toString.toList
+                          else if r.startsWith "#" || r.contains '/' then none else some r.toList
               | _ => none)
          | _ => [])
       else if k == "enum" || k == "example" || k == "examples" || k == "default" || k == "const" then []
@@ -241,8 +243,19 @@ def emit : Handler := fun req => do
       verdict false (if classes.contains "" then [] else classes.eraseDups) s!"Default::default() recursion: {defCyc.map (fun p => String.ofList p.1)}"
     else if !orphans.isEmpty then verdict false [] s!"emitted but not used by any selected operation: {orphans}"
     else verdict true []
+  -- model (documents with groups of operations that share a response shape): the response enums that stay
+  -- after `ResponseEnumDeduplicator` = one canonical enum per response signature of the selected operations
+  let gops := (arr (fieldD inp "gops" (Json.arr #[]))).toOption.getD []
+  let selIds : List String := ((arr (fieldD inp "sel_ids" (Json.arr #[]))).toOption.getD []).filterMap fun x => x.getStr?.toOption
+  let rustNameOf (k : String) : String := String.ofList (Oas3.Naming.toRustTypeName Oas3.Gen.prelude Oas3.Client.idTr k.toList)
+  let respPairs : List (GName × GName) := gops.filterMap fun g => match g with
+    | .arr #[.str id, shape] => if selIds.contains id then some ((rustNameOf (rustNameOf id ++ "Response")).toList, shape.compress.toList) else none
+    | _ => none
+  let modelJ := if gops.isEmpty then Json.null else namesJson (dedupSurvivors respPairs)
+  let implJ := if gops.isEmpty then Json.null else
+    namesJson ((defs.filter fun d => (d.getObjValAs? String "kind").toOption == some "enum" && ((d.getObjValAs? String "name").toOption.getD "").endsWith "Response").map fun d => ((d.getObjValAs? String "name").toOption.getD "").toList)
   let branch := s!"t{typeDefs.length}" ++ (if defs.any (fun d => ((arr (fieldD d "fields" (Json.arr #[]))).toOption.getD []).any fun f => ((arr (fieldD f "edges" (Json.arr #[]))).toOption.getD []).any fun e => match e with | .arr #[_, .str "box"] => true | _ => false) then "+box" else "")
-  pure (Json.mkObj [("model", Json.null), ("match", true), ("judge", judge), ("branch", if typeDefs.isEmpty then "trivial" else branch),
+  pure (Json.mkObj [("model", modelJ), ("match", modelJ == implJ), ("judge", judge), ("branch", if typeDefs.isEmpty then "trivial" else (if gops.isEmpty then branch else branch ++ s!"+grp{respPairs.length - (dedupSurvivors respPairs).length}")),
     ("detail", Json.mkObj [("undefined", Json.arr (undefinedNames.map Json.str).toArray), ("orphans", Json.arr (orphans.map Json.str).toArray),
       ("size_cycle", Json.arr (sizeCyc.map (fun p => str p.1)).toArray), ("default_cycle", Json.arr (defCyc.map (fun p => str p.1)).toArray)])])
 
